@@ -18,6 +18,7 @@ import NemoVerif.Lemmas.CleanUp
 import NemoVerif.Lemmas.SerializeRefs
 import NemoVerif.Lemmas.SerializeLossy
 import NemoVerif.Lemmas.SerializeShared
+import NemoVerif.Models.CoreVM.Run
 namespace NemoVerif.C11
 open NemoVerif NemoVerif.Serialize NemoVerif.CleanUp
 
@@ -284,6 +285,16 @@ theorem cleanup_keeps_index {α : Type} (now age : Int) (s : St α) (hnd : (s.fl
     (h : IdxOk s) : IdxOk (sweep now age s) :=
   sweep_idx now age s hnd h
 
+/-- Key lemma towards T3 (the look-ups by uid that the interpreter performs WITHOUT an existence guard on child links:
+    `_abort_flow`'s deactivation loop `state.flow_states[child_uid]`): if before the clean-up every entry of every
+    `child_flow_uids` list names an existing instance whose `parent_uid` points back (and no uid is listed twice), the
+    same holds afterwards — the clean-up never leaves a kept instance with a child uid that no longer resolves.
+    (The hypothesis "no uid is listed twice" is where C09's open finding `dangling-child` lives: a flow activated n
+    times is listed n times and only one occurrence is removed.) -/
+theorem cleanup_keeps_child_links {α : Type} (now age : Int) (s : St α) (hnd : (s.flows.map (·.uid)).Nodup)
+    (h : LinksOk s) : LinksOk (sweep now age s) :=
+  sweep_links now age s hnd h
+
 /-- Ageing is monotone: what is removable now stays removable later. -/
 theorem removable_mono (now now' age : Int) (f : Flow) (hle : now ≤ now') (h : removable now age f = true) :
     removable now' age f = true := by
@@ -294,16 +305,48 @@ example : removable 10000000 ageMicros
     { uid := "a", flowId := "f", parent := some "m", children := [], status := .finished, updated := 0,
       activated := 0, actionUids := [], heads := [] } = true := by decide
 
-/-
-  T3 (NOT proved here; rests on the behavioural correspondence of harness/props/C11.py):
+/-! ## T3 — stated over the whole-interpreter model `CoreVM` (statement only; decided by correspondence) -/
 
-    theorem cleanup_bisim : ∀ prog s es, Reachable prog s →
-        outputs (runAll (cleanUpState now s) es) = outputs (runAll s es)      (up to fresh uids)
-    theorem behaviour_preserved : ∀ prog s es, Reachable prog s → encode s = .ok j → decode j = .ok s' →
-        outputs (runAll (reinstallCallbacks s') es) = outputs (runAll s es)   (up to fresh uids)
+section T3
+open NemoVerif.CoreVM
 
-  Both need the whole-interpreter model (`Models/CoreVM.lean`, built by the C09 check) and the lemma
-  that done, non-activated instances are only ever looked up behind an existence guard.
--/
+/-- feed a history to the interpreter model; the outgoing events of every step -/
+def feed (fuel : Nat) : List Match.Ev → VM → Option (List (List Match.Ev))
+  | [], _ => some []
+  | e :: es, s =>
+    match (runToCompletion fuel e).run s with
+    | .ok _ s' => (feed fuel es s').map (s'.r.outgoing :: ·)
+    | .error _ _ => none
+
+/-- the same state after `dt` seconds without events (only the clock moves) -/
+def aged (dt : Nat) (s : VM) : VM := { s with r := { s.r with clock := s.r.clock + dt } }
+
+/-- states the interpreter model can be in between two events -/
+inductive ReachableVM : VM → Prop where
+  | init (prog : Prog) (s : VM) : (initializeState.run { r := { prog := prog } }) = .ok () s → ReachableVM s
+  | step (fuel : Nat) (e : Match.Ev) (s s' : VM) : ReachableVM s → (runToCompletion fuel e).run s = .ok () s' → ReachableVM s'
+  | wait (dt : Nat) (s : VM) : ReachableVM s → ReachableVM (aged dt s)
+
+/-- T3 `cleanup_bisim`, precise statement: in every reachable state, letting any amount of idle time pass (so that
+    `_clean_up_state` discards every done, non-activated instance older than the age at the next event) does not change
+    the outgoing events of any continuation on which both runs stay inside the model.  uids come from the model's
+    counter, which the clean-up does not touch, so "up to fresh identifiers" is literal equality here.
+    NOT proved: it needs, for every unguarded look-up by uid in `CoreVM` (`getInstX`, `getInst`, the `KeyError`
+    branches marked "model line …"), that the uid names a kept instance — `cleanup_keeps_child_links`,
+    `cleanup_keeps_index` and `cleanup_frame` give this for child links, `flow_id_states` and the records themselves at
+    the function level; the parent look-ups of activated children (`isReferenceActivated`, `restartActivated`), event
+    references (`source_flow_instance_uid`, always produced after the clean-up of the same `run_to_completion`) and
+    scope lists (C09's open finding `dangling-scope-flow`) need reachable-state invariants of the whole interpreter. -/
+def CleanupBisim : Prop :=
+  ∀ (fuel : Nat) (s : VM) (dt : Nat) (es : List Match.Ev) (o1 o2 : List (List Match.Ev)),
+    ReachableVM s → feed fuel es s = some o1 → feed fuel es (aged dt s) = some o2 → o1 = o2
+
+/- `behaviour_preserved`: in the model a restored state IS the saved `VM` value once every stored value round-trips
+   (`roundtrip_tree` on `Encodable` values, identities by `roundtrip_shared`), so equal reactions are reflexivity; the
+   Python-specific part (callbacks re-created by `json_to_state`, object identities) is decided by the oracle on the
+   implementation at every cut point. -/
+
+end T3
+
 
 end NemoVerif.C11
